@@ -644,7 +644,9 @@ impl RecvCase {
             }
         }
         // --- C10: the destination name is only ever written by the step that reports success
-        if fs_before != fs_after && !inds.iter().any(|i| matches!(i, Indication::Finished(f) if f.report.condition == Condition::NoError || f.delivery_code == DeliveryCode::Complete)) && !self.truth.success_reported {
+        // (with CheckLimitReached configured to be ignored an incomplete unacknowledged transfer is stored on purpose)
+        let ignore_check_limit = self.cfg.fho.split(';').any(|p| p == "10:i");
+        if fs_before != fs_after && !ignore_check_limit && !inds.iter().any(|i| matches!(i, Indication::Finished(f) if f.report.condition == Condition::NoError || f.delivery_code == DeliveryCode::Complete)) && !self.truth.success_reported {
             self.bad(out, viol, "C10", "no_partial", format!("filestore changed without a completion report: {} -> {}", fs_before, fs_after));
         }
         // --- emitted PDU
@@ -698,7 +700,8 @@ impl RecvCase {
                     }
                     // a requested byte must not be held already... (it may have arrived since the list was computed; only flag if held before the list was computed is unknowable here)
                 }
-                if p.header.pdu_data_field_length as u32 > self.cfg.seg as u32 + 1 {
+                // (a NAK always carries at least one request, even with a segment size too small for one)
+                if n.segment_requests.len() > 1 && p.header.pdu_data_field_length as u32 > self.cfg.seg as u32 + 1 {
                     self.bad(out, viol, "C08", "wf_size", format!("NAK data field {} exceeds the configured maximum {}", p.header.pdu_data_field_length, self.cfg.seg));
                 }
                 if !self.cfg.immediate && self.truth.eof_size.is_none() && !self.hist.iter().any(|h| h.contains("PROMPT")) {
@@ -717,7 +720,9 @@ impl RecvCase {
             && !self.truth.cancel_end_checked
         {
             self.truth.cancel_end_checked = true;
-            if !inds.iter().any(|i| matches!(i, Indication::Abandon(_))) && t[1] != "abandon" {
+            // (an ACK(Finished) from the peer also ends it: then the peer claims to have the Finished PDU)
+            let acked = matches!(&delivered, Some(PDU { payload: PDUPayload::Directive(Operations::Ack(_)), .. }));
+            if !inds.iter().any(|i| matches!(i, Indication::Abandon(_))) && t[1] != "abandon" && !acked {
                 self.bad(out, viol, "C10", "cancel_closure_finished", "cancelled with closure requested but terminated without ever sending the Finished PDU".into());
             }
         }
@@ -1506,6 +1511,92 @@ fn gen_send_script(rng: &mut Rng, cfg: &SendCfg, file: &[u8]) -> Vec<String> {
     ev
 }
 
+/// C03 exemptions: a limit fault that the user configured to be ignored or to suspend
+fn c03_exempt(fho: &str) -> bool {
+    fho.split(';').any(|p| {
+        let mut it = p.split(':');
+        let c = it.next().unwrap_or("");
+        let a = it.next().unwrap_or("");
+        matches!(c, "1" | "7" | "8" | "10") && (a == "i" || a == "s")
+    })
+}
+
+impl RecvCase {
+    /// the task loop with a peer that has fallen silent: send while there is something to send,
+    /// otherwise sleep until the next timer and handle the timeout
+    pub async fn drain(&mut self, out: &mut dyn Write, viol: &mut u64) {
+        if self.dead {
+            return;
+        }
+        let t0 = self.now_ms;
+        let bound_ms = 4 * (self.cfg.max as u64 + 1) * (self.cfg.ti.max(1) + self.cfg.ta.max(1) + self.cfg.tn.max(1)) as u64 * 1000 + 4 * self.cfg.delay_ms + 5000;
+        let mut steps = 0u32;
+        while verif::recv_state(&self.t) != TransactionState::Terminated && !self.dead {
+            if verif::recv_state(&self.t) == TransactionState::Suspended {
+                return; // suspended by the user or a handler: allowed to wait
+            }
+            steps += 1;
+            if steps > 5000 || self.now_ms - t0 > bound_ms {
+                if !c03_exempt(&self.cfg.fho) {
+                    self.bad(out, viol, "C03", "bounded", format!("still alive {} ms ({} loop iterations) after the peer fell silent; bound {} ms", self.now_ms - t0, steps, bound_ms));
+                }
+                return;
+            }
+            if verif::recv_has_pdu_to_send(&self.t) {
+                self.op(out, "recv send", viol).await;
+                continue;
+            }
+            let u = verif::recv_until_timeout(&self.t);
+            if u == Duration::MAX {
+                self.bad(out, viol, "C03", "never_stuck", "nothing to send and no timer running: the task would sleep forever".into());
+                return;
+            }
+            let ms = (u.as_nanos() as u64 + 999_999) / 1_000_000;
+            if ms > 0 {
+                self.op(out, &format!("recv adv {}", ms), viol).await;
+            }
+            self.op(out, "recv timeout", viol).await;
+        }
+    }
+}
+
+impl SendCase {
+    pub async fn drain(&mut self, out: &mut dyn Write, viol: &mut u64) {
+        if self.dead {
+            return;
+        }
+        let t0 = self.now_ms;
+        let bound_ms = 4 * (self.cfg.max as u64 + 1) * (self.cfg.ti.max(1) + self.cfg.ta.max(1)) as u64 * 1000 + 5000;
+        let mut steps = 0u32;
+        while verif::send_state(&self.t) != TransactionState::Terminated && !self.dead {
+            if verif::send_state(&self.t) == TransactionState::Suspended {
+                return;
+            }
+            steps += 1;
+            if steps > 5000 || self.now_ms - t0 > bound_ms {
+                if !c03_exempt(&self.cfg.fho) {
+                    self.bad(out, viol, "C03", "bounded", format!("still alive {} ms ({} loop iterations) after the peer fell silent; bound {} ms", self.now_ms - t0, steps, bound_ms));
+                }
+                return;
+            }
+            if verif::send_has_pdu_to_send(&self.t) {
+                self.op(out, "send send", viol).await;
+                continue;
+            }
+            let u = verif::send_until_timeout(&self.t);
+            if u == Duration::MAX {
+                self.bad(out, viol, "C03", "never_stuck", "nothing to send and no timer running: the task would sleep forever".into());
+                return;
+            }
+            let ms = (u.as_nanos() as u64 + 999_999) / 1_000_000;
+            if ms > 0 {
+                self.op(out, &format!("send adv {}", ms), viol).await;
+            }
+            self.op(out, "send timeout", viol).await;
+        }
+    }
+}
+
 fn runtime() -> tokio::runtime::Runtime {
     tokio::runtime::Builder::new_current_thread().enable_time().start_paused(true).build().unwrap()
 }
@@ -1582,10 +1673,17 @@ pub fn run_recv(opts: &Opts, out: &mut dyn Write) {
             c.hist.push(line.clone());
             let inds = c.settle().await;
             rec(out, &line, &format!("ok ind=[{}] st={} fs={}", inds.iter().map(ind_repr).collect::<Vec<_>>().join(";"), c.t.verif_snapshot(), fs_listing(&c.root)));
-            let script = gen_recv_script(&mut rng, &cfg, &file, closure, ck, nreq, transfer);
+            let mut script = gen_recv_script(&mut rng, &cfg, &file, closure, ck, nreq, transfer);
+            if rng.chance(1, 3) {
+                // blackout: the peer falls silent for good at a random point of the exchange
+                let k = rng.below(script.len() as u64 + 1) as usize;
+                script.truncate(k);
+            }
             for l in script {
                 c.op(out, &l, &mut viol).await;
             }
+            // C03: left alone (peer silent for good) the task loop must end the transaction in bounded time
+            c.drain(out, &mut viol).await;
             let _ = std::fs::remove_dir_all(&c.root);
         }
     });
@@ -1652,10 +1750,15 @@ pub fn run_send(opts: &Opts, out: &mut dyn Write) {
             let snap = c.t.verif_snapshot();
             rec(out, &line, &format!("ok ind=[{}] st={}", inds.iter().map(ind_repr).collect::<Vec<_>>().join(";"), snap));
             let file = c.file.clone();
-            let script = gen_send_script(&mut rng, &cfg, &file);
+            let mut script = gen_send_script(&mut rng, &cfg, &file);
+            if rng.chance(1, 3) {
+                let k = rng.below(script.len() as u64 + 1) as usize;
+                script.truncate(k);
+            }
             for l in script {
                 c.op(out, &l, &mut viol).await;
             }
+            c.drain(out, &mut viol).await;
             let _ = std::fs::remove_dir_all(&c.root);
         }
     });
